@@ -155,3 +155,45 @@ def binding_demo(run, graph, seed):
                                 "corrupted_read_rejected_at": v["rejected"].get(3)}
     if not ok:
         raise RuntimeError(f"binding demo failed: {v['rejected']} {v['violated']}")
+
+
+def suite_traces(run, pid, files=("tests/test_aurel_functions.py", "tests/test_over_time.py")):
+    """code -> spec on the repository's own tests: every AurelCore instance they create is recorded by a pytest plugin
+    kept in /verif (no change to /repo/tests) and its event stream validated by TLC against TraceCache."""
+    import os
+    import subprocess
+    import tempfile
+    from ..common import REPO
+    out = tempfile.mktemp(prefix="vsuite_", suffix=".json")
+    env = dict(os.environ, AUREL_VERIF_TRACE_OUT=out)
+    root = os.path.dirname(os.path.dirname(os.path.dirname(os.path.abspath(__file__))))
+    env["PYTHONPATH"] = f"{REPO}/src:{root}"
+    p = subprocess.run(["/venv/bin/python", "-m", "pytest", "-q", "-p", "no:cacheprovider", "-p", "harness.pytest_plugin", *files],
+                       cwd=REPO, env=env, capture_output=True, text=True, timeout=1800)
+    if not os.path.exists(out):
+        raise RuntimeError("the recording plugin produced no traces:\n" + p.stdout[-800:] + p.stderr[-800:])
+    with open(out) as fh:
+        tr = json.load(fh)
+    os.unlink(out)
+    groups = {}
+    for t in tr:
+        groups.setdefault(json.dumps(t["opts"], sort_keys=True), []).append(t["events"])
+    total = acc = 0
+    for o, evs in groups.items():
+        opts = json.loads(o)
+        g = X.extract({"vacuum": opts["vacuum"], "tetrad": opts["tetrad"]})
+        v = M.validate_traces(g, [], False, evs)
+        run.add_tlc(v["res"], f"TraceCache on the repository's tests, options {opts}: {len(evs)} instances")
+        total += len(evs)
+        acc += v["accepted"]
+        if v["violated"]:
+            name, tid, pos = v["violated"]
+            fpid = {"NoInPlaceWrite": "C02", "CacheNeverWritten": "C01"}.get(name, "C03")
+            if fpid == pid:
+                run.violation({"clause": name, "where": "repository test-suite trace"},
+                              f"an AurelCore instance of the repository's own tests violates {name} at event {pos}: "
+                              f"{evs[tid - 1][max(0, pos - 3):pos] if 0 < tid <= len(evs) else ''}", {"events": evs[tid - 1][:pos + 1] if 0 < tid <= len(evs) else []})
+        for tid, pos in v["rejected"].items():
+            run.note_drift(f"test-suite trace {tid} (options {opts}) stops matching the model at event {pos}: {evs[tid - 1][pos - 1] if pos - 1 < len(evs[tid - 1]) else None}")
+    run.traces += acc
+    run.info["repository_test_instances_validated"] = {"instances": total, "accepted": acc, "pytest_tail": p.stdout.strip().splitlines()[-1] if p.stdout.strip() else ""}
